@@ -68,11 +68,20 @@ def pairs_equal(a, b):
 def results_equal(stmt, ri, rm, mode):
     """mode: dict(normalise=bool, closed=bool)"""
     cmd = stmt.split()[0]
+    if "errorsonly=1" in stmt:
+        return (ri[0] == "err") == (rm[0] == "err") and (ri[0] != "err" or ri == rm)
     if ri[0] == "err" or rm[0] == "err":
         return ri == rm
-    if cmd in ("frame", "rawframe"):
-        return frames_equal(ri, rm, normalise=mode.get("normalise", True) and cmd != "rawframe",
-                            closed=mode.get("closed", False))
+    if cmd in ("frame", "rawframe", "views"):
+        return frames_equal(ri, rm, normalise=mode.get("normalise", True) and cmd == "frame",
+                            closed=mode.get("closed", False) or cmd == "views")
+    if rm[0] == "frames":
+        return (ri[0] == "frames" and len(ri[1]) == len(rm[1]) and
+                all(frames_equal(a, b, normalise=mode.get("normalise", True), closed=mode.get("closed", False))
+                    for a, b in zip(ri[1], rm[1])))
+    if rm[0] == "corrpartslist":
+        return (ri[0] == "vals" and len(ri[1]) == len(rm[1]) and
+                all(parts is not None and corr_equal(("vals", [y]), ("corrparts", parts)) for y, parts in zip(ri[1], rm[1])))
     if cmd == "stat" and stmt.split()[2] == "modes":
         # "a value of maximal total length": membership in the model's arg-max set
         if ri[0] != "vals" or rm[0] != "vals" or len(ri[1]) != 1:
@@ -121,6 +130,8 @@ def show(r):
         return str(v)
     if r[0] == "frame":
         return f"{r[1]} {sv(r[2])} | " + " ".join(f"{sv(p)}:{sv(v)}" for p, v in r[3])
+    if r[0] == "frames":
+        return " ;; ".join(show(x) for x in r[1])
     if r[0] in ("vals", "corrparts"):
         return " ".join(sv(v) for v in r[1])
     if r[0] == "pairs":
